@@ -108,6 +108,7 @@ func applyOpOverrides(of *gql.OpFeatures, on, off featSet) {
 	set("var-omitted", &of.VarOmitted)
 	set("var-in-input", &of.VarInInput)
 	set("var-named-id", &of.VarNamedID)
+	set("var-named-id-root", &of.VarNamedIDRoot)
 	set("var-stricter", &of.VarStricter)
 	set("directives", &of.Directives)
 	set("directive-vars", &of.DirectiveVars)
